@@ -5,5 +5,5 @@ CONSTANTS
   Atomic = TRUE
   MaxCalls = 1000000
 CONSTRAINT Hwm
-INVARIANTS NotDone FAtMostOnce FExactlyOnce FOneWinner
+INVARIANTS FAtMostOnce FExactlyOnce FOneWinner
 POSTCONDITION Accepted
